@@ -33,8 +33,8 @@ PROPS["C02"] = dict(
     level="proof",
     technique="Lean 4 theorems (exact pixel test; routing = hot pixels met, in travel order, by level induction) on a hand-written model + exhaustive/differential correspondence with pointindex",
     module="Texel.Properties.C02",
-    translators=["arith", "lineint"],
-    theorems=["Texel.GenLineInt.gen_lineIntersects", "Texel.C02.C02_pixel_test_source", "Texel.GenArith.gen_containsPoint", "Texel.GenArith.gen_up", "Texel.GenArith.gen_extent", "Texel.C02.C02_pixel_test", "Texel.C02.C02_hot_closed", "Texel.C02.C02_routing", "Texel.C02.C02_routing_index",
+    translators=["arith", "lineint", "mathhelp", "quadrants"],
+    theorems=["Texel.GenLineInt.gen_lineIntersects", "Texel.C02.C02_pixel_test_source", "Texel.GenMathhelp.gen_cmpProducts", "Texel.GenQuadrants.gen_findIntersectingQuadrants", "Texel.GenArith.gen_containsPoint", "Texel.GenArith.gen_up", "Texel.GenArith.gen_extent", "Texel.C02.C02_pixel_test", "Texel.C02.C02_hot_closed", "Texel.C02.C02_routing", "Texel.C02.C02_routing_index",
               "Texel.C02.C02_nodup", "Texel.C02.C02_routed_nonempty", "Texel.C02.C02_second_sentence_ring", "Texel.C02.C02_second_sentence_polygon"],
     streams=["li", "li-large", "route", "route-random", "snap", "model-functional-vs-reference"],
     trusted=["Model.Geom/Model.Route are hand-written mirrors of containsPoint, lineIntersects, findIntersectingQuadrants, snapClosestPoints, InsertPoint, insertCoord; "
@@ -64,13 +64,13 @@ def snapprop(pid, level, module, theorems, streams, technique, level_text, level
 FUNC = "model-functional-vs-reference"
 
 snapprop("C09", "proof", "Texel.Properties.C09",
-    ["Texel.C09.C09_accept_iff", "Texel.C09.C09_outside_rejected", "Texel.C09.C09_snapped_only_inside", "Texel.C09.F2_witness", "Texel.GenArith.gen_deepestAddr"],
+    ["Texel.C09.C09_accept_iff", "Texel.C09.C09_outside_rejected", "Texel.C09.C09_snapped_only_inside", "Texel.C09.F2_witness", "Texel.GenArith.gen_deepestAddr", "Texel.GenMathhelp.gen_floorDiv"],
     ["snap-outside", "snap-outside-extent", "addr"],
     "Lean 4 theorems (a vertex gets an address iff inside the half-open extent; any outside vertex makes SnapPolygon fail / return empty) + differential correspondence at 1-unit distances",
     "Theorems for every grid (any origin, resolution, depth), every polygon and every distance: deepestAddr accepts exactly the half-open extent (floor division), and one outside vertex decides the whole call "
     "(error by default, empty result with ignore-outside-grid). Tied to the code by the addr stream (public InsertPoint against the model, vertices 1 unit / res-1 / res / res+1 outside each side and corner) and the snap-outside stream.",
-    "Trusted: Lean kernel; hand-written model tied by differential testing; quantisation below 1e-10 (FromGeomOrd truncates toward zero) is outside the model: the property is stated on the quantised integers. The address arithmetic and the rejection test of the model are proved equal to the expressions trgen arith regenerates from InsertPoint/InsertCoord on every run (gen_deepestAddr).",
-    translators=["arith"])
+    "Trusted: Lean kernel; hand-written model tied by differential testing; quantisation below 1e-10 (FromGeomOrd truncates toward zero) is outside the model: the property is stated on the quantised integers. The address arithmetic and the rejection test of the model are proved equal to the expressions trgen arith regenerates from InsertPoint/InsertCoord on every run (gen_deepestAddr), and mathhelp.FloorDiv, translated too, is proved to be the flooring division for every non-zero divisor (gen_floorDiv).",
+    translators=["arith", "mathhelp"])
 
 snapprop("C08", "proof", "Texel.Properties.C08",
     ["Texel.C08.processLevels_keys", "Texel.C08.C08_keys", "Texel.C08.processLevels_entry", "Texel.C08.C08_alone_eq_together", "Texel.C08.C08_depth_independent", "Texel.C08.C08_independent"],
